@@ -66,6 +66,53 @@ SelectLOK(in, o) ==
           /\ o.sel[j] = sel(in.is[j]) /\ o.selr[j] = sel(in.is[j])
 TraceSelectL == IsEvent("selectl") /\ SelectLOK(Ev.in, Ev.out)
 
+\* ---- periodic bitmaps of up to 2^31 - 64 bits (the int32 limit of the package's positions; thorough tier).
+\* Word i is all ones, the even bits, or bits 0 and 63, for i % 3 = 0, 1, 2.  Rank, select and the scans have closed
+\* forms in the period of 192 bits (98 ones); the index slices are judged at sampled entries, the queries at sampled
+\* positions / ranks / ranges.  (W * nw must stay below 2^31 inside TLC: nw <= 2^25 - 1.)
+PB(k) == LET w == (k \div 64) % 3  b == k % 64 IN CASE w = 0 -> TRUE [] w = 1 -> b % 2 = 0 [] OTHER -> b \in {0, 63}
+PPre(r) == Cardinality({k \in 0..(r - 1) : PB(k)})                      \* ones among the first r bits of a period
+RankP(pos) == ((pos \div 192) * 98) + PPre(pos % 192)
+BitP(pos) == IF PB(pos) THEN 1 ELSE 0
+SelectP(i) == ((i \div 98) * 192) + (CHOOSE k \in 0..191 : PB(k) /\ PPre(k) = i % 98)
+\* (i + 191 may leave TLC's integers near 2^31: the upper bound is formed without it)
+NextP(i, end) == LET hi == IF end - 1 - i > 191 THEN i + 191 ELSE end - 1
+                     C == {k \in i..hi : PB(k)} IN IF C = {} THEN -1 ELSE Min(C)
+PrevP(i, end) == LET C == {k \in Max2(i, end - 192)..(end - 1) : PB(k)} IN IF C = {} THEN -1 ELSE Max(C)
+PerBigOK(in, o) ==
+    LET nw == in.nw  N == W * nw  n == RankP(N)
+        sel(i) == <<SelectP(i), IF i + 1 < n THEN SelectP(i + 1) ELSE N>> IN
+    /\ nw >= 3 /\ nw <= 33554431
+    \* rank (C01)
+    /\ (Len(in.pos) > 0 =>
+          /\ o.n64 = nw /\ o.n64t = nw + 1 /\ o.n128 = (nw \div 2) + 1
+          /\ \A j \in DOMAIN in.wk : LET k == in.wk[j] IN                  \* 0-based entry k of each index
+                /\ 0 <= k /\ k < nw
+                /\ o.idx64[j] = RankP(W * k) /\ o.idx64t[j] = RankP(W * k)
+                /\ o.idx128[j] = RankP(Min2(2 * W * (k \div 2), N))
+          /\ o.idx64tlast = n
+          /\ \A j \in DOMAIN in.pos :
+                LET want == <<RankP(in.pos[j]), BitP(in.pos[j])>> IN
+                /\ in.pos[j] >= 0 /\ in.pos[j] < N
+                /\ o.r64[j] = want /\ o.r64t[j] = want /\ o.r128[j] = want)
+    \* select (C02)
+    /\ (Len(in.is) > 0 =>
+          /\ o.nsidx = CeilDiv(n, K) /\ o.nsidx2 = o.nsidx /\ o.nridx = nw + 1
+          /\ \A j \in DOMAIN in.sj : LET e == in.sj[j] IN                   \* 0-based entry e of the select index
+                /\ 0 <= e /\ e < o.nsidx
+                /\ o.sidx[j] = SelectP(K * e) /\ o.sidx2[j] = o.sidx[j]
+          /\ \A j \in DOMAIN in.is :
+                /\ in.is[j] >= 0 /\ in.is[j] < n
+                /\ o.sel[j] = sel(in.is[j]) /\ o.selr[j] = sel(in.is[j]))
+    \* scans (C13)
+    /\ Len(o.next) = Len(in.ranges) /\ Len(o.prev) = Len(in.ranges)
+    /\ \A j \in DOMAIN in.ranges :
+          LET i == in.ranges[j][1]  end == in.ranges[j][2] IN
+          /\ 0 <= i /\ i <= end /\ end <= N /\ i < N
+          /\ o.next[j] = NextP(i, end)
+          /\ (end >= 1 => o.prev[j] = PrevP(i, end))
+TracePerBig == IsEvent("perbig") /\ PerBigOK(Ev.in, Ev.out)
+
 \* ---- C13
 ScanOK(in, o) ==
     LET s == S(in.bm)  N == W * in.bm.nw IN
@@ -77,6 +124,18 @@ ScanOK(in, o) ==
           /\ o.next[j] = NextD(s, i, end)
           /\ (end >= 1 => o.prev[j] = PrevD(s, i, end))
 TraceScan == IsEvent("scan") /\ ScanOK(Ev.in, Ev.out)
+\* scans in sparse bitmaps of up to 2^31 bits (thorough tier); W * nw may be 2^31: bounds stated with divisions
+ScanBigOK(in, o) ==
+    LET s == S(in.bm)  nw == in.bm.nw
+        upto(e) == e \div W < nw \/ (e \div W = nw /\ e % W = 0) IN             \* e <= W * nw
+    /\ IsAsc(in.bm.ones) /\ \A j \in DOMAIN in.bm.ones : in.bm.ones[j] >= 0 /\ in.bm.ones[j] \div W < nw
+    /\ Len(o.next) = Len(in.ranges) /\ Len(o.prev) = Len(in.ranges)
+    /\ \A j \in DOMAIN in.ranges :
+          LET i == in.ranges[j][1]  end == in.ranges[j][2] IN
+          /\ 0 <= i /\ i <= end /\ upto(end) /\ i \div W < nw
+          /\ o.next[j] = NextD(s, i, end)
+          /\ (end >= 1 => o.prev[j] = PrevD(s, i, end))
+TraceScanBig == IsEvent("scanbig") /\ ScanBigOK(Ev.in, Ev.out)
 
 \* ---- C12 (pure part)
 OfOK(in, o) ==
@@ -92,6 +151,21 @@ OfOK(in, o) ==
           /\ o.sgetc[j] = o.sget[j] /\ o.sget1c[j] = o.sget1[j]
           /\ (Inside(d.nw, i) => ToSet(o.get[j]) = GetD(s, i) /\ ToSet(o.get1[j]) = Get1D(s, i))
 TraceOf == IsEvent("of") /\ OfOK(Ev.in, Ev.out)
+
+\* Of / ToArray / Get / SafeGet with positions up to 2^31 - 1 (the largest int32; thorough tier).  last + 1 and W * nw
+\* may equal 2^31 and leave TLC's integers: the number of words and "inside" are stated with divisions.
+OfBigOK(in, o) ==
+    LET L == in.pos  last == L[Len(L)]
+        nwant == Max2(last \div W + 1, IF in.hasn /\ in.n >= 1 THEN (in.n - 1) \div W + 1 ELSE 0)
+        s == Range(L) IN
+    /\ Len(L) >= 1 /\ IsAsc(L) /\ L[1] >= 0
+    /\ o.nw = nwant /\ o.ones = L /\ o.arr = L
+    /\ \A j \in DOMAIN in.probes :
+          LET i == in.probes[j]  inside == i >= 0 /\ i \div W < nwant IN
+          /\ ToSet(o.sget[j])  = (IF inside THEN GetD(s, i) ELSE {})
+          /\ ToSet(o.sget1[j]) = (IF inside THEN Get1D(s, i) ELSE {})
+          /\ (inside => ToSet(o.get[j]) = GetD(s, i) /\ ToSet(o.get1[j]) = Get1D(s, i))
+TraceOfBig == IsEvent("ofbig") /\ OfBigOK(Ev.in, Ev.out)
 
 \* OfMany: every segment ascending; a position may exceed its segment's size (the shifted concatenation
 \* need not be ascending then) as long as every bit fits the words Of allots: ceil(max(sum of sizes,
@@ -151,7 +225,9 @@ TraceSlice == IsEvent("slice") /\ SliceOK(Ev.in, Ev.out)
 SliceBigOK(in, o) ==
     /\ IsAsc(in.bm.ones) /\ \A j \in DOMAIN in.bm.ones : in.bm.ones[j] >= 0 /\ in.bm.ones[j] \div W < in.bm.nw
     /\ 0 <= in.from /\ in.from <= in.to /\ in.to \div W + (IF in.to % W = 0 THEN 0 ELSE 1) <= in.bm.nw
-    /\ SameBM(o.bm, SliceD(S(in.bm), in.from, in.to))
+    \* (SliceD's CeilDiv(to - from, W) adds W - 1 and may leave TLC's integers: the word count is formed by division)
+    /\ o.bm.nw = ((in.to - in.from) \div W) + (IF (in.to - in.from) % W = 0 THEN 0 ELSE 1)
+    /\ IsAsc(o.bm.ones) /\ ToSet(o.bm.ones) = {p - in.from : p \in {q \in S(in.bm) : q >= in.from /\ q < in.to}}
     /\ o.inafter = in.bm
 TraceSliceBig == IsEvent("slicebig") /\ SliceBigOK(Ev.in, Ev.out)
 
@@ -186,6 +262,6 @@ TraceFmt == IsEvent("fmt") /\ FmtOK(Ev.in, Ev.out)
 
 TraceInit == l = 1
 TraceNext == TraceMasks \/ TraceRank \/ TraceRankL \/ TraceSelect \/ TraceSelectL \/ TraceScan \/ TraceOf \/ TraceOfMany
-             \/ TraceToArray \/ TraceJoin \/ TraceJoinBig \/ TraceSlice \/ TraceSliceBig \/ TraceSelSingle \/ TraceSelU64 \/ TraceFmt
+             \/ TraceToArray \/ TraceJoin \/ TraceJoinBig \/ TraceSlice \/ TraceSliceBig \/ TracePerBig \/ TraceOfBig \/ TraceScanBig \/ TraceSelSingle \/ TraceSelU64 \/ TraceFmt
 TraceSpec == TraceInit /\ [][TraceNext]_l
 ============================================================================
